@@ -1,6 +1,7 @@
 """Helpers of check C17: log generator from a layout, --summary parser, layout arithmetic,
-class predicates of the two known findings, and a python transliteration of Model/Retain.v
-(used only to pre-compute class predicates and to size cases; the tie B evaluates the Coq model).
+class predicates of the two known findings, and python transliterations of Model/Retain.v
+(sim_cur) and Model/RetainSearch.v (WindowSim) — used only to pre-compute class predicates and for
+the large files of run C; the tie B evaluates the Coq model and cross-checks the transliterations.
 
 A LAYOUT is a list of (length, dated) pairs, one per line, length counts the final newline;
 the first line is dated.  A message = a dated line and the undated lines after it.
@@ -303,3 +304,276 @@ def sim_cur(layout, bs, streamed, lag):
             j += 1
         del stored[:j]
     return hb, hl, hs, derr
+
+
+# ------------------------------------------------------------------ windowed runs (-a)
+
+def window_of(layout, frac):
+    """(index t of the first message of the window, its ISO stamp): the first dated line at or
+    after frac of the file size (the last message if there is none)"""
+    tot = sum(l for l, _ in layout)
+    off = 0
+    t = 0
+    best = None
+    for ln, dated in layout:
+        if dated:
+            if off >= frac * tot and best is None:
+                best = t
+            t += 1
+        off += ln
+    if best is None:
+        best = t - 1
+    return best, stamp("iso", best).decode()
+
+
+class _LRU:
+    """the lru crate as the readers use it: most recently used first"""
+
+    def __init__(self, cap):
+        self.cap = cap
+        self.l = []
+
+    def touch(self, k, v):
+        """get-hit (promote) and put have the same effect"""
+        for i, (kk, _) in enumerate(self.l):
+            if kk == k:
+                self.l.pop(i)
+                break
+        self.l.insert(0, (k, v))
+        if len(self.l) > self.cap:
+            self.l.pop()
+
+    def get(self, k):
+        for i, (kk, v) in enumerate(self.l):
+            if kk == k:
+                self.l.insert(0, self.l.pop(i))
+                return v
+        return None
+
+    def pop(self, k):
+        for i, (kk, _) in enumerate(self.l):
+            if kk == k:
+                self.l.pop(i)
+                return
+
+    def refs(self, v):
+        return any(vv == v for _, vv in self.l)
+
+
+class WindowSim:
+    """python transliteration of Model/RetainSearch.v for the CURRENT policy: plain file, window
+    start = message t (None: no window), the consumer `lag` messages behind.  Literal at the level
+    of find_sysline / find_line calls (the Coq model's cursor in the stream phase is the same
+    thing on every reachable state); cross-checked against Coq (rows_w) on every windowed B case."""
+
+    def __init__(self, layout, bs, lag=1):
+        import bisect
+        self._bisect = bisect
+        self.bs = bs
+        self.beg = []; self.end = []; self.dated = []
+        off = 0
+        for ln, d in layout:
+            self.beg.append(off); self.end.append(off + ln - 1); self.dated.append(d); off += ln
+        self.filesz = off
+        self.mfirst = []; self.mlastl = []
+        for i, d in enumerate(self.dated):
+            if d or not self.mfirst:
+                self.mfirst.append(i); self.mlastl.append(i)
+            else:
+                self.mlastl[-1] = i
+        self.msg_of_line = []
+        for m, (a, z) in enumerate(zip(self.mfirst, self.mlastl)):
+            self.msg_of_line += [m] * (z - a + 1)
+        self.n = len(self.mfirst)
+        self.blocks = set(); self.lines = set(); self.sys = set()
+        self.hb = self.hl = self.hs = 0
+        self.slru = _LRU(4); self.llru = _LRU(8)
+        self.lag = lag
+        self.dok = self.derr = self.dlerr = 0
+        self.finds = 0
+        self.sent = []
+
+    def blk(self, fo):
+        return fo // self.bs
+
+    def read_block(self, b):
+        if b not in self.blocks:
+            self.blocks.add(b)
+            if len(self.blocks) > self.hb:
+                self.hb = len(self.blocks)
+
+    def find_line(self, fo):
+        v = self.llru.get(fo)
+        if v is not None:
+            return v
+        if fo >= self.filesz:
+            return "Done"
+        i = self._bisect.bisect_right(self.beg, fo) - 1
+        if i in self.lines:
+            self.llru.touch(fo, i)
+            return i
+        for b in range(self.blk(fo), self.blk(self.end[i]) + 1):
+            self.read_block(b)
+        if not (fo == 0 or (fo == self.beg[i] and (i - 1) in self.lines)):
+            lo = self.beg[i] - 1 if self.beg[i] > 0 else 0
+            for b in range(self.blk(fo - 1), self.blk(lo) - 1, -1):
+                self.read_block(b)
+        self.lines.add(i)
+        if len(self.lines) > self.hl:
+            self.hl = len(self.lines)
+        self.llru.touch(fo, i)
+        return i
+
+    def find_sysline(self, fo):
+        self.finds += 1
+        v = self.slru.get(fo)
+        if v is not None:
+            return v
+        if fo < self.filesz:
+            m = self.msg_of_line[self._bisect.bisect_right(self.beg, fo) - 1]
+            if m in self.sys:
+                self.slru.touch(fo, m)
+                return m
+        i = self.find_line(fo)
+        if i == "Done":
+            self.slru.touch(fo, "Done")
+            return "Done"
+        while not self.dated[i] and i > 0:
+            i = self.find_line(self.beg[i] - 1)
+        m = self.msg_of_line[i]
+        fo1 = self.end[i] + 1
+        while True:
+            j = self.find_line(fo1)
+            if j == "Done" or self.dated[j]:
+                break
+            fo1 = self.end[j] + 1
+        self.sys.add(m)
+        if len(self.sys) > self.hs:
+            self.hs = len(self.sys)
+        self.slru.touch(fo, m)
+        return m
+
+    def mbeg(self, m): return self.beg[self.mfirst[m]]
+    def mend(self, m): return self.end[self.mlastl[m]]
+
+    def blockzero(self):
+        bs0 = min(self.bs, self.filesz)
+        self.read_block(0)
+        nl, ns = (1, 1) if bs0 < 8096 else (3, 2)
+        fo = 0; found = 0
+        while found < nl:
+            i = self._bisect.bisect_right(self.beg, fo) - 1
+            if self.blk(self.end[i]) != 0:
+                break
+            self.find_line(fo)
+            found += 1
+            fo = self.end[i] + 1
+            if fo >= self.filesz or self.blk(fo) != 0:
+                break
+        fo = 0; found = 0
+        while found < ns and fo < self.filesz and self.blk(fo) == 0:
+            m = self.msg_of_line[self._bisect.bisect_right(self.beg, fo) - 1]
+            nxt = self.mlastl[m] + 1
+            if nxt >= len(self.beg) or self.blk(self.end[nxt]) != 0:
+                break
+            self.find_sysline(fo)
+            found += 1
+            fo = self.mend(m) + 1
+
+    def bsearch(self, fileoffset, t):
+        """find_sysline_at_datetime_filter_binary_search; the instant of message k is k"""
+        try_fo = fileoffset; try_fo_last = try_fo; sp = None
+        fo_a = fileoffset; fo_b = self.filesz
+        while True:
+            r = self.find_sysline(try_fo)
+            done = r == "Done"
+            if not done:
+                m = r
+                if t is None:
+                    return m
+                if m >= t:
+                    if try_fo == fileoffset:
+                        return m
+                    try_fo_last = try_fo
+                    fo_b = min(self.mbeg(m), try_fo_last)
+                    try_fo = fo_a + (fo_b - fo_a) // 2
+                else:
+                    try_fo_last = try_fo
+                    fo_a = min(self.mend(m), fo_b)
+                    try_fo = fo_a + (fo_b - fo_a) // 2
+                sp = m
+            else:
+                try_fo_last = try_fo
+                try_fo = fo_a + (fo_b - fo_a) // 2
+            if done and try_fo == try_fo_last:
+                return None
+            elif try_fo != try_fo_last:
+                continue
+            m = sp
+            fo_beg = self.mbeg(m)
+            if self.mend(m) == self.filesz - 1 and fo_beg < try_fo:
+                return None
+            if fo_beg < try_fo:
+                mn = self.find_sysline(self.mend(m) + 1)
+                if mn == "Done":
+                    return None
+                a, b = m < t, mn < t
+                if a:
+                    m = mn
+                elif b:
+                    return None
+            return m
+
+    def drop_try(self, p, heldset):
+        f = self.blk(self.mbeg(p))
+        if f < 3:
+            return
+        bo = f - 2
+        for m in sorted(self.sys):
+            if self.blk(self.mend(m)) <= bo:
+                self.sys.discard(m)
+                self.slru.pop(self.mbeg(m))
+                if m in heldset or self.slru.refs(m):
+                    self.derr += 1
+                    continue
+                self.dok += 1
+                for i in range(self.mfirst[m], self.mlastl[m] + 1):
+                    self.llru.pop(self.beg[i])
+                    self.lines.discard(i)
+                    if self.llru.refs(i):
+                        self.dlerr += 1
+                        continue
+                    for b in range(self.blk(self.beg[i]), self.blk(self.end[i])):
+                        self.blocks.discard(b)
+
+    def run(self, t):
+        self.blockzero()
+        w = self.bsearch(0, t)
+        self.search_marks = (self.hb, self.hl, self.hs)
+        if w is None:
+            return self
+        self.sent = [w]
+        if self.mend(w) == self.filesz - 1:
+            return self
+        fo1 = self.mend(w) + 1
+        prev = None
+        while True:
+            q = self.bsearch(fo1, t)
+            if q is None:
+                break
+            self.sent.append(q)
+            fo1 = self.mend(q) + 1
+            if self.mend(q) == self.filesz - 1:
+                break
+            if prev is not None:
+                self.drop_try(prev, set(self.sent[-self.lag:]))
+            prev = q
+        return self
+
+    def result(self):
+        """(blocks high, lines high, syslines high, drop_sysline errors, drop_line errors)"""
+        return (self.hb, self.hl, self.hs, self.derr, self.dlerr)
+
+
+def sim_cur_w(layout, bs, lag, t):
+    return WindowSim(layout, bs, lag).run(t).result()
